@@ -455,6 +455,35 @@ def check_aux(run, bitpacked):
                 run.violation('aux-empty-arrays', dict(unpack_bits=repr(ub), got={k: (v.shape, str(v.dtype)) for k, v in arrs.items()}))
 
 
+def check_through_catalog(run):
+    """The decoders as the halo-catalogue loader drives them: preallocated per-field output views that are advanced halo by halo
+    (own particles, then merged ones).  Every word of the generated files carries a tag, so each decoded field of each row is
+    compared with the reference decoding of the word that belongs there."""
+    import shutil
+
+    from .. import catoracle, gen_catalog
+
+    catoracle.fast_io()
+    rng = run.rng(8)
+    for k in range(3 if run.quick else 40):
+        T = gen_catalog.make_tree(rng, nslab=2, halos_per_slab=[int(rng.integers(5, 25)) for _ in range(2)], box=[500.0, 2000.0][k % 2], ppd=[64, 6912][k % 2], merge_prob=0.8, cleaned_away_prob=0.1)
+        try:
+            for cleaned in (True, False):
+                for ub in (True, ['density'], ['tagged', 'density', 'lagr_idx'], ['lagr_pos', 'pid']):
+                    desc = dict(through='CompaSOHaloCatalog', cleaned=cleaned, unpack_bits=ub, tree=k)
+                    run.ev()
+                    run.progress(desc)
+                    cat, err = catoracle.load(T['path'], cleaned=cleaned, subsamples=dict(A=True, B=True, rv=True, pid=True), unpack_bits=ub, fields=['N'])
+                    if err is not None:
+                        run.violation('catalog-decode-load-fails', dict(error=f'{type(err).__name__}: {err}'[:200], **desc))
+                        continue
+                    run.nt(('catalog', k, cleaned, repr(ub)))
+                    run.count('catalog_loads')
+                    catoracle.check_subsamples(run, cat, T, T['slab_inds'], cleaned, ['A', 'B'], desc=desc, key_prefix='catalog-decode')
+        finally:
+            shutil.rmtree(T['root'], ignore_errors=True)
+
+
 def check(run):
     from abacusnbody.data import bitpacked
 
@@ -464,6 +493,7 @@ def check(run):
     check_rvint_roundtrip(run, bitpacked)
     check_rvint_output_modes(run, bitpacked)
     check_aux(run, bitpacked)
+    check_through_catalog(run)
     if not run.quick:
         check_rvint_exhaustive(run)
 
